@@ -2,7 +2,7 @@
 
 use std::collections::HashMap;
 use std::sync::atomic::{AtomicU32, Ordering};
-use std::sync::{Arc, Mutex};
+use std::sync::Arc;
 
 use bitcoin::block::Header;
 use bitcoin::secp256k1::SecretKey;
@@ -20,6 +20,7 @@ use crate::extended_appointment::{ExtendedAppointment, UUID};
 use crate::gatekeeper::{Gatekeeper, MaxSlotsReached, UserInfo};
 use crate::responder::{ConfirmationStatus, Responder, TransactionTracker};
 use crate::tx_index::TxIndex;
+use crate::vsync::Mutex;
 
 /// Structure holding data regarding a breach.
 ///
